@@ -417,6 +417,7 @@ func run(c *driver.Ctx) {
 		}
 		runValidate(c, i, c.CaseRand(i))
 	}
+	runEmptySections(c)
 	nTel := int64(c.N(150, 4000))
 	for k := int64(0); k < nTel; k++ {
 		i := telemetryBase + k
